@@ -364,3 +364,8 @@ PARTS = [
     Part(name="round_trip_layout_rejection", strategy=_strategy, body=_body, variants=_variants,
          examples={"quick": 720, "thorough": 14000}, shards={"quick": 12, "thorough": 12}),
 ]
+# the same generator and oracle driven by libFuzzer with branch coverage of sopht/utils/io.py as feedback
+from ..fuzz import make_fuzz_part  # noqa: E402
+
+PARTS.append(make_fuzz_part("coverage_guided_round_trip", PARTS[0], instrument=["sopht.utils.io"],
+                            runs={"quick": 600, "thorough": 60000}, max_time={"quick": 25, "thorough": 900}))
